@@ -5,7 +5,7 @@
 
    Output, one line per fact:
      <id> OK                          model and implementation agree on every step
-     <id> DIFF <step> <model-token>   first step at which they differ
+     <id> DIFF <step> <op> <R|P> <model-token>   first step at which they differ
      <id> V <prop> <guard> <impl> <model>   verdicts of check_<prop> (0/1) *)
 
 open BinNums
@@ -66,6 +66,15 @@ let parse_case line =
       | _ -> failwith ("unknown op " ^ name) in
     (recv, op)) in
   { id; stream; flags; pool; steps }
+
+let op_name (op : Hist.op) = match op with
+  | Hist.OChars _ -> "chars" | Hist.OCharsFrom _ -> "charsfrom" | Hist.OCharsTo _ -> "charsto"
+  | Hist.OLines _ -> "lines" | Hist.OLinesFrom _ -> "linesfrom" | Hist.OLinesTo _ -> "linesto"
+  | Hist.OCommit -> "commit" | Hist.OCommitAll -> "commitall" | Hist.OWithOptions _ -> "withopts"
+  | Hist.OInsert _ -> "insert" | Hist.ODelete _ -> "delete" | Hist.OOvertype _ -> "overtype"
+  | Hist.OWrap _ -> "wrap" | Hist.OJustify _ -> "justify" | Hist.OAlign _ -> "align" | Hist.OCollapse _ -> "collapse"
+  | Hist.OIndent _ -> "indent" | Hist.OApply _ -> "apply" | Hist.OApplyParas _ -> "applyparas"
+  | Hist.OTwoCols _ -> "twocols" | Hist.ODefTable _ -> "deftable" | Hist.OTable _ -> "table"
 
 (* ---- running the model ------------------------------------------------- *)
 let cls = Go.coq_GoClassifier
@@ -357,11 +366,17 @@ let mode_cases cases_path res_path =
           | rid :: impl ->
             if rid <> c.id then failwith ("id mismatch " ^ rid ^ " vs " ^ c.id);
             let (model, trace) = run_model c in
+            (* DIFF lines name the operation of the first differing step and whether the step's own result (R) or
+               only the re-observation of earlier pool entries (P) differs *)
+            let opname k = (match Stdlib.List.nth_opt c.steps k with Some (_, op) -> op_name op | None -> "?") in
+            let kind m i =
+              let first s = Stdlib.List.hd (String.split_on_char ';' s) in
+              if first m <> first i then "R" else "P" in
             let rec cmp k ms is = match ms, is with
               | [], [] -> Printf.printf "%s OK\n" c.id
-              | m :: ms', i :: is' -> if m = i then cmp (k + 1) ms' is' else Printf.printf "%s DIFF %d %s\n" c.id k m
-              | m :: _, [] -> Printf.printf "%s DIFF %d %s\n" c.id k m
-              | [], _ :: _ -> Printf.printf "%s DIFF %d -\n" c.id k in
+              | m :: ms', i :: is' -> if m = i then cmp (k + 1) ms' is' else Printf.printf "%s DIFF %d %s %s %s\n" c.id k (opname k) (kind m i) m
+              | m :: _, [] -> Printf.printf "%s DIFF %d %s R %s\n" c.id k (opname k) m
+              | [], _ :: _ -> Printf.printf "%s DIFF %d %s R -\n" c.id k (opname k) in
             cmp 0 model impl;
             Verdicts.emit c.id c.stream trace c.pool (Stdlib.List.map fst c.steps) (Stdlib.List.map parse_obs impl) impl
           | [] -> failwith "empty result line")
